@@ -29,6 +29,9 @@ TrOpen == IsEvent("Open") /\ Open(Ev.files) /\ obs' = NoObs /\ UNCHANGED saved
 TrAppend == IsEvent("Append") /\ Ev.ok /\ AppendAny(Ev.id, Ev.epoch, Ev.size, Ev.file)
             /\ obs' = [kind |-> "Append", targetOK |-> AppendTargetOK(Ev.file)] /\ UNCHANGED saved
 
+\* an append the code refused (value not encodable); Ev.file = the active file afterwards
+TrAppendRejected == IsEvent("Append") /\ ~Ev.ok /\ Ev.rejected /\ AppendRejected(IF Ev.file = "" THEN active ELSE Ev.file) /\ obs' = NoObs /\ UNCHANGED saved
+
 TrFlush == (IsEvent("Rotate") \/ IsEvent("Close")) /\ Flush /\ obs' = NoObs /\ UNCHANGED saved
 
 TrCrash == IsEvent("Crash") /\ Crash /\ obs' = NoObs /\ UNCHANGED saved
@@ -64,7 +67,7 @@ TrForkEnd ==
   /\ inflight' = saved[1].inflight /\ removed' = saved[1].removed /\ lastPurge' = NoPurge
   /\ saved' = <<>> /\ obs' = NoObs
 
-TNext == TrReset \/ TrOpen \/ TrAppend \/ TrFlush \/ TrCrash \/ TrPurge \/ TrAll \/ TrTearFork \/ TrForkEnd
+TNext == TrReset \/ TrOpen \/ TrAppend \/ TrAppendRejected \/ TrFlush \/ TrCrash \/ TrPurge \/ TrAll \/ TrTearFork \/ TrForkEnd
 
 \* ------------------------------------------------------------------ property monitors (C11)
 ObsSet == SeqToSet(obs.ids)
